@@ -102,7 +102,7 @@ theorem parses_raft (c : CodecCfg) (p : RaftPtr) (h : p.WF) :
       (.raft (some p)) := by
   obtain ⟨h1, h2, h3, h4, h5, h6, h7, h8, h9, h10, h11, h12⟩ := h
   unfold decRaft
-  refine Parses.ifWithin ?_
+  refine Parses.ifPayload c (by simp [putUvarint_ne_nil]) ?_
   refine Parses.bind (Parses.manUv c _ h1) ?_
   refine Parses.bind (Parses.manUv c _ (by unfold two32 two64 at *; omega)) ?_
   refine Parses.bind (Parses.manUv c _ h3) ?_
@@ -153,7 +153,7 @@ theorem parses_region (c : CodecCfg) (r : RegionEdit) (h : r.WF) :
       (.region (some r)) := by
   have hid := h.1
   unfold decRegion
-  refine Parses.ifWithin ?_
+  refine Parses.ifPayload c (by split <;> simp [putUvarint_ne_nil]) ?_
   by_cases hdel : r.delete = true
   · simp only [hdel, ↓reduceIte]
     refine Parses.bind (Parses.manUv c _ hid) ?_
